@@ -91,11 +91,20 @@ func (i ImportNames) TypeName(t types.Type) string {
 			// A predeclared type such as "error".
 			return typ.Obj().Name()
 		}
+		// An instantiated generic type is written with its type arguments: "Box[int]".
+		name := typ.Obj().Name()
+		if args := typ.TypeArgs(); args != nil && 0 < args.Len() {
+			argNames := make([]string, args.Len())
+			for k := range argNames {
+				argNames[k] = i.TypeName(args.At(k))
+			}
+			name += "[" + strings.Join(argNames, ", ") + "]"
+		}
 		if pkgName, ok := i[typ.Obj().Pkg().Path()]; ok && pkgName != "." {
-			return fmt.Sprintf("%v.%v", pkgName, typ.Obj().Name())
+			return fmt.Sprintf("%v.%v", pkgName, name)
 		}
 		// A type of the setup file's own package, or of a dot-imported one.
-		return typ.Obj().Name()
+		return name
 	default:
 		// An unnamed composite type (slice, array, map, chan, func, struct...): named types
 		// inside it are qualified the same way as above.
